@@ -3,7 +3,7 @@ CONSTANTS
   Users = {"u1"}
   Flags = {"R", "F"}
   MaxCalls = 3
-  MaxFaults = 1
+  MaxFaults = 2
   MaxCloses = 1
   Fifo = TRUE
   FixWindow = TRUE
@@ -12,4 +12,5 @@ CONSTANTS
   FixCancelSwallow = TRUE
 PROPERTY AlwaysSettles
 PROPERTY EveryRequestHandled
+PROPERTY RetryEventually
 CHECK_DEADLOCK FALSE
